@@ -852,6 +852,18 @@ class Exec:
 
     ev_GeneratorExp = ev_ListComp
 
+    def _comp_hook(self, e, st):
+        hook = getattr(self.unit, 'on_comprehension', None)
+        if hook:
+            r = hook(self, st, e)
+            if r is not None:
+                return r
+        raise Unsupported(f'{type(e).__name__} at line {e.lineno}')
+
+    ev_DictComp = _comp_hook
+    ev_SetComp = _comp_hook
+    ev_GeneratorExp = _comp_hook
+
     def ev_Starred(self, e, st):
         raise Unsupported('starred expression')
 
